@@ -1,6 +1,7 @@
 package rules
 
 import (
+	"dirkcheck/internal/prog"
 	"fmt"
 	"go/types"
 	"sort"
@@ -230,12 +231,35 @@ func (c *Ctx) HandlerToRules(prop string) {
 			checkArg(args[4], "data")
 			// response list: one slot per request, created before the service call
 			okResp := false
+			isRespList := func(mk *ssa.MakeSlice) bool {
+				if sl, ok := mk.Type().(*types.Slice); ok {
+					if pt, ok := sl.Elem().(*types.Pointer); ok && namedIs(pt.Elem(), pkgPB, "SignResponse") {
+						return true
+					}
+				}
+				return false
+			}
 			for _, b := range H.Blocks {
 				for _, ins := range b.Instrs {
-					if mk, ok := ins.(*ssa.MakeSlice); ok && (lenIs(mk.Len, reqList) || lenIsReqs(mk.Len)) {
-						if sl, ok := mk.Type().(*types.Slice); ok {
-							if pt, ok := sl.Elem().(*types.Pointer); ok && namedIs(pt.Elem(), pkgPB, "SignResponse") {
-								okResp = true
+					if mk, ok := ins.(*ssa.MakeSlice); ok && (lenIs(mk.Len, reqList) || lenIsReqs(mk.Len)) && isRespList(mk) {
+						okResp = true
+					}
+					// a constructor helper given len(requests)
+					if call, ok := ins.(*ssa.Call); ok {
+						cal := call.Call.StaticCallee()
+						if cal == nil || !prog.InModule(cal) || cal.Blocks == nil || call.Call.IsInvoke() {
+							continue
+						}
+						for ai, a := range call.Call.Args {
+							if ai >= len(cal.Params) || !(lenIs(a, reqList) || lenIsReqs(a)) {
+								continue
+							}
+							for _, b2 := range cal.Blocks {
+								for _, i2 := range b2.Instrs {
+									if mk, ok := i2.(*ssa.MakeSlice); ok && mk.Len == ssa.Value(cal.Params[ai]) && isRespList(mk) {
+										okResp = true
+									}
+								}
 							}
 						}
 					}
